@@ -91,6 +91,11 @@ func attributeType(args ...Object) Object {
 			return newError("invalid type %s", strObj.Value)
 		}
 
+		if isUndefined(path) {
+			// a missing attribute has no type
+			return FALSE
+		}
+
 		return nativeBoolToBooleanObject(path.Type() == ObjectType(strObj.Value))
 	}
 
@@ -100,6 +105,11 @@ func attributeType(args ...Object) Object {
 func beginsWith(args ...Object) Object {
 	path := args[0]
 	substr := args[1]
+
+	if isUndefined(path) {
+		// a missing attribute begins with nothing
+		return FALSE
+	}
 
 	if path.Type() == ObjectTypeString {
 		if substr.Type() != ObjectTypeString {
@@ -127,6 +137,11 @@ func contains(args ...Object) Object {
 	path := args[0]
 	operand := args[1]
 
+	if isUndefined(path) {
+		// a missing attribute contains nothing
+		return FALSE
+	}
+
 	container, ok := path.(ContainerObject)
 	if !ok {
 		return newError("contains is not supported for path=%s", path.Type())
@@ -151,6 +166,26 @@ func objectSize(args ...Object) Object {
 		bin, _ := path.(*Binary)
 
 		return &Number{Value: float64(len(bin.Value))}
+	case ObjectTypeList:
+		list, _ := path.(*List)
+
+		return &Number{Value: float64(len(list.Value))}
+	case ObjectTypeMap:
+		m, _ := path.(*Map)
+
+		return &Number{Value: float64(len(m.Value))}
+	case ObjectTypeStringSet:
+		ss, _ := path.(*StringSet)
+
+		return &Number{Value: float64(len(ss.Value))}
+	case ObjectTypeNumberSet:
+		ns, _ := path.(*NumberSet)
+
+		return &Number{Value: float64(len(ns.Value))}
+	case ObjectTypeBinarySet:
+		bs, _ := path.(*BinarySet)
+
+		return &Number{Value: float64(len(bs.Value))}
 	}
 
 	return newError("type not supported: size %s", path.Type())
